@@ -271,6 +271,7 @@ def explore_c14(rng, tier, res, deep=False):
         docs = [doc_with_all_kinds(rng, 2) for _ in range(3)]
         eph = [[{"v": 1}, {"v": 2}], [{"v": 1}, {"v": 2}, {"v": 1}], [0, [1], {"a": 2}], [[], 0], [{"a": 1, "b": [2]}], {"a": [1, 2], "b": 1}]
         hist = []
+        rec_limit0, switch0 = sys.getrecursionlimit(), sys.getswitchinterval()
         live_obj, live_arr = {}, []
         for _step in range(rng.randint(10, 40)):
             k = rng.random()
@@ -297,7 +298,11 @@ def explore_c14(rng, tier, res, deep=False):
             elif k < 0.5:
                 ei = rng.randrange(len(envs))
                 q = g.query() if rng.random() < 0.8 else gen.mutate(rng, g.query())
-                if rng.random() < 0.35:
+                if rng.random() < 0.06:
+                    # long queries, valid and failing late (in the lexer, the parser, the type checker): whatever compile()
+                    # adjusts for the duration of a big parse has to be put back on every exit path
+                    q = "$" + ".a" * rng.choice([300, 600, 1500]) + rng.choice(["", "[?nope(@.b) > 1]", "[?count(@.b)]", "[?@.b ==]", "[", " ", "[?length(@.b) == 01]"])
+                elif rng.random() < 0.35:
                     q = rng.choice(["$[?@.v == $[2].v]", "$[?@ == $[0]]", "$[?$[1]]", "$..[?@ == $.b]", "$[?@.a == $[0].a]",
                                     "$[?count($[*]) > 2]", "$.a[?@ < $.b]", "$[?$[?@.v == 2]]", "$[?@ != $[-1]]"])
                 r = outcome(lambda: envs[ei].compile(q))
@@ -355,6 +360,11 @@ def explore_c14(rng, tier, res, deep=False):
                 ops_wire.append(f"(envfind {ei} {wire.enc_str(q)} {wire.enc_json(doc)})")
                 hist.append(("envfind", ei, q))
             res.evaluations += 1
+            if sys.getrecursionlimit() != rec_limit0 or sys.getswitchinterval() != switch0:
+                res.violations.append({"property": "C14", "query": str(hist[-1])[:200], "observed": {"recursionlimit": sys.getrecursionlimit(), "switchinterval": sys.getswitchinterval()},
+                                       "expected": {"recursionlimit": rec_limit0, "switchinterval": switch0}, "history": [str(h)[:120] for h in hist[-6:]],
+                                       "what": "an operation changed interpreter-wide state (the recursion limit) that the outcome of later evaluations on ANY environment depends on"})
+                sys.setrecursionlimit(rec_limit0)
         # bursts: the same compiled query applied back to back to documents that are decoded, used once and dropped
         # (nothing else allocated in between), each result compared with a fresh environment's
         texts = [json.dumps(d) for d in eph + docs]
@@ -559,6 +569,11 @@ def thread_stress(rng, tier, res):
     shared = [env.compile(q) for q in qs]
     others = [jp.JSONPathEnvironment().compile(q) for q in qs]
     want = {(i, j): enc_list(shared[i].find(docs[j])) for i in range(len(qs)) for j in range(len(docs))}
+    # pairs that keep several threads inside the same code at the same time: container comparisons on the shared rows
+    # document, regex functions on the string documents
+    rows_j = len(docs) - 1
+    hot = [(i, rows_j) for i, q in enumerate(qs) if "$.rows" in q] * 3
+    hot += [(i, j) for i, q in enumerate(qs) if "match(" in q or "search(" in q for j in (len(docs) - 3, len(docs) - 2)]
     errors = []
     old = sys.getswitchinterval()
     sys.setswitchinterval(1e-6)
@@ -568,7 +583,7 @@ def thread_stress(rng, tier, res):
 
             r = _r.Random(seed)
             for _ in range(150 if tier != "thorough" else 1500):
-                i, j = r.randrange(len(qs)), r.randrange(len(docs))
+                i, j = r.choice(hot) if r.random() < 0.6 else (r.randrange(len(qs)), r.randrange(len(docs)))
                 try:
                     k = r.random()
                     if k < 0.4:
